@@ -3,7 +3,7 @@ import GoLevel.Proofs.WriteProtoAppend
 /-! Soundness of the trace validator: every candidate model state after an accepted event is reached from a
 candidate before it by steps of the transition system (for `call`: from that candidate extended by the
 idle thread the call uses). -/
-namespace GoLevel.Driver
+namespace GoLevel.Driver.Wp
 open GoLevel GoLevel.WP
 
 theorem advance_sound (ms : List St) (alts : St → List (List Label)) (post : St → Bool) (m' : St)
@@ -111,4 +111,4 @@ theorem runEvents_reach (es : List Ev) (v v' : WpState) (hv : WpReach v) (h : ru
     · rename_i v1 h1; exact ih v1 (legalStep_reach v v1 e hv h1) h
     · cases h
 
-end GoLevel.Driver
+end GoLevel.Driver.Wp
